@@ -217,8 +217,10 @@ class JsonShim:
     dumps = None
 
 
-def gate(version, msg_type, pid):
-    """Message.from_json refuses header-plus-data JSON whose non-zero version differs from the local hash"""
+def gate(version, msg_type, pid, first=None):
+    """Message.from_json refuses header-plus-data JSON whose non-zero version differs from the local hash - also when an
+    earlier document of the same type (version `first`: in sync, legacy 0, or itself refused) was decoded before it in this
+    process: the gate is per document, not per type"""
     D = cd.MDF_MODULE_READY
     hdr_cls = twin(MessageHeader)
     old = (MSG.json, MSG.get_header_cls, MSG._msg_defs)
@@ -226,7 +228,8 @@ def gate(version, msg_type, pid):
     MSG.get_header_cls = lambda *a: hdr_cls
     defs = [(D.type_id, twin(D)), (cd.MDF_CONNECT_V2.type_id, twin(cd.MDF_CONNECT_V2))]
     MSG._msg_defs = standins.LinearDict(None, defs) if SHADOW else dict(defs)
-    try:
+
+    def once(version, msg_type, pid):
         h = hdr_cls()
         hd = h.to_dict()
         hd["msg_type"] = msg_type
@@ -252,6 +255,16 @@ def gate(version, msg_type, pid):
             if not (m.header._reserved == version and m.data._pid == pid and m.header._msg_type == msg_type):
                 return False, "decoded message differs from the JSON"
         return True, ""
+
+    try:
+        if first is not None:
+            ok, why = once(first, D.type_id, 7)
+            if not ok:
+                return False, "first document: " + why
+        ok, why = once(version, msg_type, pid)
+        if not ok and first is not None:
+            why = "second document of the process: " + why
+        return ok, why
     finally:
         MSG.json, MSG.get_header_cls, MSG._msg_defs = old
 
@@ -350,3 +363,19 @@ def h_gate_reach(version: int, msg_type: int, pid: int) -> bool:
     post: _
     """
     return reached(gate(version, msg_type, pid))
+
+
+def h_gate2(first: int, version: int, msg_type: int, pid: int) -> bool:
+    """
+    pre: 0 <= first < 2**32 and 0 <= version < 2**32 and -2**31 <= msg_type < 2**31 and -2**31 <= pid < 2**31
+    post: _
+    """
+    return verdict(gate(version, msg_type, pid, first))
+
+
+def h_gate2_reach(first: int, version: int, msg_type: int, pid: int) -> bool:
+    """
+    pre: 0 <= first < 2**32 and 0 <= version < 2**32 and -2**31 <= msg_type < 2**31 and -2**31 <= pid < 2**31
+    post: _
+    """
+    return reached(gate(version, msg_type, pid, first))
